@@ -134,6 +134,31 @@ def run_op(m, s, box, x, y, o, par, name, w, k):
                 from py4hw.base import OutPort
                 p1 = m.children['sys']['p1']
                 OutPort(p1, 'alias%d' % k, y)
+            elif o in (7, 8):
+                # tri-state primitives (in/out ports) on an ORDINARY wire: 7 = on y, which p1 already drives; 8 = two of them on a fresh wire
+                # (the first is the wire's driver, the second must be refused and the first must stay)
+                from py4hw.logic.bitwise import BidirBuf
+                aux = {n: s.wire('%s_%d' % (n, k), 1) for n in ('pin_a', 'pin_b', 'pout', 'poe')}
+                for n, wr in aux.items():
+                    m.wires['sys'][wr.name] = wr
+                m.children['sys']['tri%da' % k] = None
+                m.children['sys']['tri%db' % k] = None
+                expect = True
+                if o == 7:
+                    what = 'BidirBuf(sys, "tri%da", ..., y) on the ordinary wire y that p1 drives' % k
+                    BidirBuf(s, 'tri%da' % k, aux['pin_a'], aux['pout'], aux['poe'], y)
+                else:
+                    what = 'two BidirBuf on one fresh ordinary wire'
+                    pad = s.wire('pad_%d' % k, 1)
+                    m.wires['sys'][pad.name] = pad
+                    BidirBuf(s, 'tri%da' % k, aux['pin_a'], aux['pout'], aux['poe'], pad)
+                    src0 = pad.source
+                    try:
+                        BidirBuf(s, 'tri%db' % k, aux['pin_b'], aux['pout'], aux['poe'], pad)
+                    except Exception:
+                        if pad.source is src0:
+                            raise
+                        what += ' (refused, but the earlier driver was replaced)'
             elif o == 3:
                 wk, wn = m.where(w)
                 what = '%s.rename(%r)' % (wn, name)
@@ -172,7 +197,7 @@ def construct_task(p, cfg, rec):
     first = cfg['first']                       # the first operation is enumerated by the task list, the second is symbolic
     rec.update(['py4hw.base.Wire.__init__', 'py4hw.base.Logic.__init__', 'py4hw.base.Logic.appendWire', 'py4hw.base.Wire.setSource',
                 'py4hw.base.Wire.rename', 'py4hw.base.Wire.reparent', 'py4hw.base.Wire.reparentAndRename', 'py4hw.base.OutPort.__init__'])
-    op, opv = core.fresh_range('op', 0, 6)
+    op, opv = core.fresh_range('op', 0, 8)
     par, parv = core.fresh_range('parent', 0, 1)
     nm, nmv = core.fresh_range('name', 0, len(POOL) - 1)
     wsel, wv = core.fresh_range('wire', 0, 1)
@@ -484,7 +509,7 @@ def main(argv=None):
         assumptions=['histories of one or two operations after a generated template (a system with two wires, a box with one wire, one primitive driver; optionally a nested box); the expected outcome comes from an abstract registry model, not from the implementation state',
                      'a failed rename/reparent may leave the moved wire itself unregistered; the statement only demands that the earlier owner of the name stays in place',
                      'integrity clause: inputs driven by Constant blocks; single fault = one input left undriven (library blocks) or one driver removed at any position of a generated structural hierarchy, including wires nobody reads, unused inputs and wires attached to no port'],
-        bounds={'names': POOL, 'operations': 'Wire(), primitive construction (child name / second driver), a second out port of the driving block on the same wire, rename, reparent, reparentAndRename',
+        bounds={'names': POOL, 'operations': 'Wire(), primitive construction (child name / second driver), a second out port of the driving block on the same wire, tri-state primitives (in/out ports) as second driver of an ordinary wire, rename, reparent, reparentAndRename',
                 'integrity': 'one configuration per library block class of the C07/C08/C09 grids (thorough: up to 4)'},
         trusted_base=['symx selector forks (path-complete)', 'oracle predicates in checks/c11.py'])
 
